@@ -1621,8 +1621,12 @@ def c10(ctx):
         P1 = bytes((i * 29 + 7) % 253 for i in range(4096))
         chunkers = [("rollsum", ["--hash-chunking", "RollSum", "--rolling-window-size", "16B", "--min-chunk-size", "64B", "--avg-chunk-size", "256B", "--max-chunk-size", "1KiB"], 1024),
                     ("buzhash", ["--hash-chunking", "BuzHash", "--rolling-window-size", "16B", "--min-chunk-size", "64B", "--avg-chunk-size", "256B", "--max-chunk-size", "1KiB"], 1024)]
-        for cname, cargs, maxc in chunkers:
-            d = os.path.join(root, cname)
+        # the second kind of shared data has long constant runs: there the MAXIMUM chunk size places the boundaries, and
+        # it has to be the same maximum whenever the data is chunked (compress, seed scan, output scan)
+        S_runs = pattern(5000, 23) + b"\0" * 20000 + pattern(5000, 29) + b"\xff" * 15000 + pattern(15000, 31)
+        chunkers = [(c[0] + k, c[1], c[2], sv) for c in chunkers for k, sv in (("", S), ("/runs", S_runs))]
+        for cname, cargs, maxc, S in chunkers:
+            d = os.path.join(root, cname.replace("/", "-"))
             os.makedirs(d)
             src, arc = os.path.join(d, "new.bin"), os.path.join(d, "a.cba")
             with open(src, "wb") as f:
@@ -1653,7 +1657,7 @@ def c10(ctx):
     finally:
         shutil.rmtree(root, ignore_errors=True)
     cov = {"evaluations": n, "cli_resync_cases": n, "distinct_nontrivial": len(distinct), "exhaustive": True,
-           "rule": "real binary: new = P1+S (4 KiB + 60 kB) cloned with old = P2+S, |P2| in {4097, 5000, 9001, 20000}, given as seed file and as prior output, RollSum and BuzHash: the bytes fetched from the archive stay below |P1| + 4 maximal chunks (every chunk of S after the resynchronisation point is found)"}
+           "rule": "real binary: new = P1+S (4 KiB + 60 kB) cloned with old = P2+S, |P2| in {4097, 5000, 9001, 20000}, given as seed file and as prior output, RollSum and BuzHash, S irregular text or text with constant runs of 15-20 kB (boundaries placed by the maximum chunk size): the bytes fetched from the archive stay below |P1| + 4 maximal chunks (every chunk of S after the resynchronisation point is found)"}
     return result(ctx["pid"], "exploration", cov, viol, t0, ["A5; the command's own report line is the observation"])
 
 
